@@ -161,6 +161,86 @@ class MpLib:
         x = _m(x)
         return mpf(1) if x > 0 else (mpf(-1) if x < 0 else mpf(0))
 
+    # names the compute layer does not use today but a behaviour-preserving rewrite legitimately could (they exist in
+    # numpy and most of them in SympyLib): without them such a rewrite would stop the 60-digit tier with a harness error
+    def arccosh(self, x):
+        x = _m(x)
+        return mpf("nan") if x < 1 else mpmath.acosh(x)
+
+    def arctanh(self, x):
+        x = _m(x)
+        if abs(x) > 1:
+            return mpf("nan")
+        if abs(x) == 1:
+            return mpf("inf") if x > 0 else mpf("-inf")
+        return mpmath.atanh(x)
+
+    def hypot(self, x, y):
+        return mpmath.sqrt(_m(x) ** 2 + _m(y) ** 2)
+
+    def square(self, x):
+        return _m(x) ** 2
+
+    def power(self, x, y):
+        return _m(x) ** _m(y)
+
+    def cbrt(self, x):
+        x = _m(x)
+        return -mpmath.cbrt(-x) if x < 0 else mpmath.cbrt(x)
+
+    def log1p(self, x):
+        return self.log(1 + _m(x))
+
+    def expm1(self, x):
+        return mpmath.expm1(_m(x))
+
+    def negative(self, x):
+        return -_m(x)
+
+    def reciprocal(self, x):
+        return 1 / _m(x)
+
+    def fabs(self, x):
+        return abs(_m(x))
+
+    abs = absolute
+
+    def fmax(self, a, b):
+        a, b = _m(a), _m(b)
+        return b if mpmath.isnan(a) else (a if mpmath.isnan(b) else (a if a >= b else b))
+
+    def fmin(self, a, b):
+        a, b = _m(a), _m(b)
+        return b if mpmath.isnan(a) else (a if mpmath.isnan(b) else (a if a <= b else b))
+
+    def clip(self, x, lo, hi):
+        return self.minimum(self.maximum(x, lo), hi)
+
+    def where(self, cond, a, b):
+        return _m(a) if cond else _m(b)
+
+    def isnan(self, x):
+        return bool(mpmath.isnan(_m(x)))
+
+    def isinf(self, x):
+        return bool(mpmath.isinf(_m(x)))
+
+    def isfinite(self, x):
+        return bool(mpmath.isfinite(_m(x)))
+
+    def signbit(self, x):
+        x = _m(x)
+        return (x < 0) or (x == 0 and str(x).startswith("-"))
+
+    def deg2rad(self, x):
+        return _m(x) * mp.pi / 180
+
+    def rad2deg(self, x):
+        return _m(x) * 180 / mp.pi
+
+    nan = mpf("nan")
+    e = mp.e + 0
+
     def isclose(self, a, b, rtol=1e-05, atol=1e-08, equal_nan=False):
         a = _m(a)
         b = _m(b)
